@@ -341,6 +341,11 @@ class Exec:
             self.oblige("define", g, f"{fname.strip()} is well defined: {ex.strip()} is a function of {rest.strip()[:-1]} only", node,
                         tag=fname.strip())
             self.assume(_uf(fname.strip(), len(aterms))(*aterms) == vterm)
+        elif kind == "append":
+            # append <listmap>, <key>, <value>: ghost append to row <key> of a ghost dict-of-lists
+            lm_, key_, val_ = self.eval_clause("(" + body + ",)", cenv, NORESULT)
+            h_ = self.methods[("_ListMapRow", "call:append")]
+            h_(self, _ListMapRow(lm_, key_), [val_], {}, node, env, fr)
         elif kind == "let":
             name, _, ex = body.partition("=")
             self.st.ghostvars[name.strip()] = self.eval_clause(ex, cenv, NORESULT)
@@ -628,7 +633,13 @@ class Exec:
         spec = fr.contract.loops.get(ordinal) if fr.contract else None
         it = self.eval_iter(s.iter, env, fr)
         if it[0] == "concrete":
-            for item in it[1]:
+            # unrolled: the loop's ghost state and counter (if the contract names them) still exist for anchored ghost statements
+            if spec is not None:
+                for g in spec.ghost_init:
+                    self.run_ghost(g, env, fr, s)
+            for pos_, item in enumerate(it[1]):
+                if spec is not None and spec.counter:
+                    env[spec.counter] = pos_
                 self.assign(s.target, item, env, fr)
                 try:
                     self.exec_block(s.body, env, fr)
@@ -636,6 +647,9 @@ class Exec:
                     continue
                 except _Break:
                     return
+                if spec is not None:
+                    for g in spec.ghost_step:
+                        self.run_ghost(g, env, fr, s)
             self.exec_block(s.orelse, env, fr)
             return
         # symbolic iteration: ('indexed', lo, hi, item_fn(k) -> value, counter_hint)
@@ -715,9 +729,10 @@ class Exec:
                     env[n] = Arr.fresh(n, shape if v.base is None else list(v.shape), v.kind, ghost=dict(v.ghost))
                     continue
                 env[n] = self.havoc_value(v, n, in_place=True)
+        anchored = [x for xs in ((fr.contract.asserts or {}).values() if fr.contract else []) for x in xs if x.startswith("append ")]
         for g in list(self.st.ghostvars):
             if spec.modifies is None or g in names:
-                if any(g in x for x in spec.ghost_step):
+                if any(g in x for x in spec.ghost_step) or any(x[len("append "):].split(",")[0].strip() == g for x in anchored):
                     self.st.ghostvars[g] = self.havoc_value(self.st.ghostvars[g], g, in_place=False)
 
     def havoc_value(self, v, name, in_place):
@@ -807,6 +822,8 @@ class Exec:
         if isinstance(v, _ListMapValues):
             lm = v.lm
             return ("indexed", 0, lm.n, lambda k: _ListMapRow(lm, k), None)
+        if isinstance(v, ListMap) and v.__dict__.get("as_rows"):
+            return ("indexed", 0, v.n, lambda k, lm=v: _ListMapRow(lm, k), None)
         if isinstance(v, _RangeVal):
             return ("indexed", v.lo, v.hi, lambda k: k, None)
         raise Unsupported(f"iteration over {type(v).__name__} at {loc_of(fr, node)}")
@@ -828,6 +845,9 @@ class Exec:
         if n.id in env:
             return env[n.id]
         if isinstance(fr, _SpecFrame):
+            rf = getattr(self.ctx, "recfuns", {}).get(n.id)
+            if rf is not None:
+                return Builtin(n.id, rf)
             if n.id in self.spec_builtins:
                 return Builtin(n.id, self.spec_builtins[n.id])
             if n.id in self.spec_consts:
@@ -1247,6 +1267,11 @@ class Exec:
             if isinstance(item, (str, int)):
                 return item in container
             return or_vals([eq_val(item, x) for x in container])
+        if isinstance(container, _ListMapRow):
+            # x in <python list with symbolic length>
+            lm, kk = container.lm, to_z3(container.key, "int")
+            t = z3.Int(fresh_name("t"))
+            return z3.Exists([t], z3.And(t >= 0, t < z3.Select(lm.len, kk), z3.Select(lm.elems, kk, t) == to_z3(item, lm.kind)))
         if isinstance(container, Obj) and container.cls == "Dataset":
             if not isinstance(item, str):
                 raise Unsupported("membership of a non-literal name in a dataset")
@@ -1267,6 +1292,24 @@ class Exec:
                 v = self.eval(n.elt, env, fr)
                 if is_scalar(v):
                     return V.ConstList(v, arith("-", it[2], it[1]))
+            if not g.ifs and len(it) == 5:
+                # [f(row) for row in rows]: evaluated for a generic position k; equal-length 1-D results form a 2-D array
+                _, lo, hi, item_fn, _ct = it
+                kq = z3.Int(fresh_name("comp_k"))
+                self.assume(z3.And(to_z3(lo, "int") <= kq, kq < to_z3(hi, "int")))
+                e2 = dict(env)
+                self.assign(g.target, item_fn(kq), e2, fr)
+                v = self.eval(n.elt, e2, fr)
+                if isinstance(v, Arr) and v.rank == 1 and isinstance(lo, int) and lo == 0:
+                    width = z3.simplify(to_z3(v.shape[0], "int"))
+                    if not _mentions(width, kq):
+                        cell = v.sel(z3.Int("__t"))
+                        tq = z3.Int("__t")
+                        r = Arr.from_lambda([hi, width], v.kind,
+                                            lambda f, t, cell=cell: z3.substitute(cell, (kq, to_z3(f, "int")), (tq, to_z3(t, "int"))),
+                                            name="rows")
+                        r.ghost.update(owner="fresh", corder=True)
+                        return r
             raise Unsupported(f"comprehension over a symbolic iterable at {loc_of(fr, n)}")
         out = []
         for item in it[1]:
@@ -2139,6 +2182,22 @@ def _as_load(t):
 
 def _has_call(n):
     return any(isinstance(x, ast.Call) for x in ast.walk(n))
+
+
+def _mentions(term, const):
+    seen, stack = set(), [term]
+    while stack:
+        x = stack.pop()
+        if x.get_id() in seen:
+            continue
+        seen.add(x.get_id())
+        if x.eq(const):
+            return True
+        if z3.is_quantifier(x):
+            stack.append(x.body())
+        else:
+            stack.extend(x.children())
+    return False
 
 
 def _has_subscript(n):
